@@ -388,6 +388,14 @@ def strat_many(draw):
     return {'pieces': pieces}
 
 
+def enum_rejoin_small(tier):
+    for names, depth, text in gen.small_scopes(tier):
+        for i, p in enumerate(gen.small_values(names, depth, text)):
+            yield {'p': p}
+            if i % 7 == 0:
+                yield {'p': dict(p, cls='s')}
+
+
 SUBS = [
     Sub('many_pieces', eval_many, strategy=strat_many, quick=40, thorough=600,
         rule='chains of 8-90 small styled pieces (shadowed, conflicting and duplicate settings) concatenated with +=, join and +'),
@@ -398,6 +406,9 @@ SUBS = [
         rule='the left text ends with the beginning of an escape sequence, the right text starts with the rest'),
     Sub('seam_small_exhaustive', eval_concat, enumerate=enum_seam_small,
         exhaustive_note='all left operands built from <=3 applications of {red, blue, bold} ending at the seam x all right operands starting with <=3 of them (every stop vector in {1,2}^n for the merged configurations)'),
+    Sub('rejoin_small_exhaustive', eval_rejoin, enumerate=enum_rejoin_small,
+        rule='s[:k] + s[k:] for every k of every value reachable by <= 2 apply/remove steps over {red, blue, bold} on 3 characters and <= 3 steps over {red, blue} on 2 (thorough: 3) characters',
+        exhaustive_note='all values of the small scopes x all split points'),
     Sub('join', eval_join, strategy=strat_join, quick=150, thorough=2500),
     Sub('rejoin', eval_rejoin, strategy=strat_value, quick=150, thorough=3000,
         rule='s[:k] + s[k:] for every k in 0..len of each generated value'),
